@@ -34,19 +34,14 @@ func runC06(r *Run) {
 	r.Always(pop, "recv.l1Cache.Purge()", "purge-on-rewind of the near-frontier undo-overlay cache")
 	r.Always(pop, "recv.l2Cache.Purge()", "purge-on-rewind of the far undo-overlay cache")
 
-	// cache: unconfirmed pool
-	r.Has("chain.(*accountPool).DeleteMomentum", "store recv.managers = make(map[types.Address]db.Manager)", "a rewound momentum invalidates every pool manager (they are layered on the stable state)")
-	r.MustCall("chain.(*accountPool).InsertMomentum", "chain.(*accountPool).rebuild", "after every inserted momentum the pool is rebuilt on the new stable state")
-	rb := "chain.(*accountPool).rebuild"
-	r.GuardLike(rb, "ne(db.NewMemDBManager(recv.stable.GetStableAccountDB(", "a block that no longer links to the new stable state aborts the rebuild of that account")
-	r.HasPrefix(rb, "delete(recv.managers,", "the old manager is dropped before the new one is built")
-	r.HasPrefix(rb, "store recv.managers[", "the rebuilt manager replaces it")
+	poolInvalidationRules(r)
 
 	// cache: consensus points (validate-on-read)
 	for fn, pre := range map[string]string{"consensus.(*compoundPoints).GetPoint": "recv.prefix", "consensus.(*periodPoints).GetPoint": "0"} {
 		r.Alias("$dbp", "recv.db.GetPointByHeight("+pre+",a0)#0")
 		r.Alias("$end", "recv.ChainTicker.GetEndBlock(a0)#0")
 		r.Branch(fn, "ne($end.Hash,$dbp.EndHash)", "a stored/cached point is used only if it ends in the block that ends the tick on the current chain")
+		r.ReturnOnlyUnder(fn, "$dbp, nil", "eq($end.Hash,$dbp.EndHash)", "a stored/cached point is handed out only after its end hash was compared with the block that ends the tick on the current chain — no path (fast path, finished-tick shortcut) returns it unvalidated")
 		r.OnCondMustCall(fn, "ne($end.Hash,$dbp.EndHash)", "consensus/storage.(*DB).DeletePointByHeight", "a point of an abandoned branch is deleted")
 		r.OnCondMustCall(fn, "ne($end.Hash,$dbp.EndHash)", "consensus.(*compoundPoints).generatePointFromLower|consensus.(*periodPoints).generatePointFromChain|consensus/storage.(*DB).DeletePointByHeight", "and regenerated")
 		r.Guards([]row{{F: fn, C: "ne(nil,recv.db.DeletePointByHeight(" + pre + ",a0)) @ T(recv.ChainTicker.HasStarted(a0)) & ne(nil,$dbp) & ne($end.Hash,$dbp.EndHash)", Why: "a failed invalidation is an error, not a silent reuse"}})
@@ -88,4 +83,16 @@ func runC06(r *Run) {
 	r.Has("common/db.(*patchRollback).Put", "recv.rollback(a0)", "puts are undone")
 	r.Has("common/db.(*patchRollback).Delete", "recv.rollback(a0)", "deletes are undone")
 	r.Notes = append(r.Notes, "points.lastCompletedPeriod/lastCompletedEpoch are pre-compute cursors only; reads go through GetPoint, which validates the stored point against the current chain (rows above)")
+}
+
+// poolInvalidationRules: the unconfirmed pool is layered on the stable state; every rewound
+// momentum drops all of it, every inserted momentum rebuilds it (shared by C06, C03, C14).
+func poolInvalidationRules(r *Run) {
+	r.Has("chain.(*accountPool).DeleteMomentum", "store recv.managers = make(map[types.Address]db.Manager)", "a rewound momentum invalidates every pool manager (they are layered on the stable state)")
+	r.MustCall("chain.(*accountPool).InsertMomentum", "chain.(*accountPool).rebuild", "after every inserted momentum the pool is rebuilt on the new stable state")
+	rb := "chain.(*accountPool).rebuild"
+	r.GuardLike(rb, "ne(db.NewMemDBManager(recv.stable.GetStableAccountDB(", "a block that no longer links to the new stable state aborts the rebuild of that account")
+	r.HasPrefix(rb, "delete(recv.managers,", "the old manager is dropped before the new one is built")
+	r.HasPrefix(rb, "store recv.managers[", "the rebuilt manager replaces it")
+
 }
